@@ -167,6 +167,8 @@ class GenericAdaptiveMutationStep(GenericMutationStep):
         generation: int,
     ) -> None:
         npop = [i for i in population]
+        if not npop:
+            return
         evaluator.evaluate(problem, npop)
         best = best_of_population(npop, problem)
         best_fitness = best.get_fitness(problem)
@@ -198,6 +200,8 @@ class GenericAdaptiveCrossoverStep(GenericCrossoverStep):
         generation: int,
     ) -> None:
         npop = [i for i in population]
+        if not npop:
+            return
         evaluator.evaluate(problem, npop)
         best = best_of_population(npop, problem)
         best_fitness = best.get_fitness(problem)
